@@ -439,6 +439,16 @@ pub fn emit_glue(spec: &DefSpec, built: &Built, module: &str, gen_file: &str) ->
         writeln!(w, "            {} => Rec::V{}(Place::Inline(serde_json::from_str::<CappedRecord{}<CAP>>(text).map_err(|e| e.to_string())?)),", k, k, k).unwrap();
     }
     writeln!(w, "            _ => panic!(\"glue: no such variant\"),\n        }}; self.slots[slot] = Some(rec); Ok(()) }}").unwrap();
+    writeln!(w, "        fn to_json_value(&self, slot: usize) -> Result<String, String> {{ match self.slots[slot].as_ref().expect(\"empty slot\") {{").unwrap();
+    for k in 0..nv {
+        writeln!(w, "            Rec::V{}(p) => serde_json::to_value(p.get()).map(|v| v.to_string()).map_err(|e| e.to_string()),", k).unwrap();
+    }
+    writeln!(w, "            _ => unreachable!(),\n        }} }}").unwrap();
+    writeln!(w, "        fn from_json_value(&mut self, slot: usize, variant: usize, text: &str) -> Result<(), String> {{ let value: serde_json::Value = serde_json::from_str(text).map_err(|e| e.to_string())?; let rec = match variant {{").unwrap();
+    for k in 0..nv {
+        writeln!(w, "            {} => Rec::V{}(Place::Inline(serde_json::from_value::<CappedRecord{}<CAP>>(value).map_err(|e| e.to_string())?)),", k, k, k).unwrap();
+    }
+    writeln!(w, "            _ => panic!(\"glue: no such variant\"),\n        }}; self.slots[slot] = Some(rec); Ok(()) }}").unwrap();
     writeln!(w, "        fn from_bincode(&mut self, slot: usize, variant: usize, bytes: &[u8]) -> Result<(), String> {{ let rec = match variant {{").unwrap();
     for k in 0..nv {
         writeln!(w, "            {} => Rec::V{}(Place::Inline(bincode::deserialize::<CappedRecord{}<CAP>>(bytes).map_err(|e| e.to_string())?)),", k, k, k).unwrap();
